@@ -506,6 +506,18 @@ fn imeta_case(mime: u8, filename: &str, size: u16, muts: &[u8], rep: &mut CaseRe
         3 => ("audio/mpeg", (0..size as usize + 1).map(|i| (i * 13) as u8).collect()),
         _ => ("application/octet-stream", (0..size as usize).map(|i| (i * 3) as u8).collect()),
     };
+    // the caller's spelling of the MIME type: as is, capitalised, with a parameter, with blanks
+    let spelled = match (mime / 5) % 4 {
+        0 => mime_type.to_string(),
+        1 => {
+            let mut c = mime_type.chars();
+            c.next().map(|f| f.to_ascii_uppercase().to_string() + c.as_str()).unwrap_or_default()
+        }
+        2 => format!("{mime_type}; charset=utf-8"),
+        _ => format!(" {mime_type} "),
+    };
+    let mime_type = spelled.as_str();
+    rep.classes.push(format!("imeta:mime-spelling-{}", (mime / 5) % 4));
     on_mdk!(&a, m => {
         let mm = m.media_manager(gid.clone());
         let up = match mm.encrypt_for_upload(&data, mime_type, filename) {
@@ -595,7 +607,7 @@ pub fn main(args: &Args) -> i32 {
     let spec = Spec {
         id: "C15",
         level: "exploration",
-        rule: "four generated families. (1) group-data extension values (any UTF-8 name/description incl. empty, NUL, multi-byte, long; 0..n admins and relays; all 16 presence patterns of the four image fields; versions 1..65535): library encoding equals an independent encoder of the documented layout, decode(encode(v)) = v, and each single-field mutation (appended bytes, truncation, version 0, non-UTF-8 name/description/relay, invalid relay URL, image field lengths other than 0 or the fixed one, over-long length prefix, ragged admin vector, a list length prefix that ends inside the list's last element) is refused. (2) key-package events over relay lists / protected flag: a second client parses them to the same reference and identity; each listed ambiguity (missing / hex encoding tag, hex content, foreign or missing i tag, foreign author, wrong protocol / ciphersuite / extensions tags, wrong kind, missing relays) is refused. (3) welcome rumors of real create_group calls: the joiner's preview equals the inviter's group data; missing / hex / second disagreeing or value-less encoding tag, hex content, wrong kind, missing relays / e tag, truncation are refused - the structural ones also when offered after the genuine invitation under its wrapper id or with its rumor id. (4) imeta tags over MIME families, file names and sizes: parse(create(u)) equals the reference; wrong-length or non-hex x / n, unknown or missing v, missing x / n are refused. Non-trivial = every case that reached its round trip; distinct = distinct cases".into(),
+        rule: "four generated families. (1) group-data extension values (any UTF-8 name/description incl. empty, NUL, multi-byte, long; 0..n admins and relays; all 16 presence patterns of the four image fields; versions 1..65535): library encoding equals an independent encoder of the documented layout, decode(encode(v)) = v, and each single-field mutation (appended bytes, truncation, version 0, non-UTF-8 name/description/relay, invalid relay URL, image field lengths other than 0 or the fixed one, over-long length prefix, ragged admin vector, a list length prefix that ends inside the list's last element) is refused. (2) key-package events over relay lists / protected flag: a second client parses them to the same reference and identity; each listed ambiguity (missing / hex encoding tag, hex content, foreign or missing i tag, foreign author, wrong protocol / ciphersuite / extensions tags, wrong kind, missing relays) is refused. (3) welcome rumors of real create_group calls: the joiner's preview equals the inviter's group data; missing / hex / second disagreeing or value-less encoding tag, hex content, wrong kind, missing relays / e tag, truncation are refused - the structural ones also when offered after the genuine invitation under its wrapper id or with its rumor id. (4) imeta tags over MIME families (spelled canonically, capitalised, with a parameter, with surrounding blanks), file names and sizes: parse(create(u)) equals the reference; wrong-length or non-hex x / n, unknown or missing v, missing x / n are refused. Non-trivial = every case that reached its round trip; distinct = distinct cases".into(),
         assumptions: vec![
             "the reference encoder follows TLS presentation language with RFC 9420 variable-length integers (as tls_codec does)".into(),
             "trailing bytes after the TLS structure inside key-package / welcome content are measured by C06's mutants but not judged here: only the extension parser documents a trailing-byte check".into(),
@@ -632,7 +644,7 @@ pub fn main(args: &Args) -> i32 {
                 12 => (ext, prop::collection::vec(ext_mut.clone(), 0..6)).prop_map(|(v, muts)| Case::Extension { v, muts }),
                 2 => (prop::collection::vec(any::<u8>(), 0..5), any::<bool>(), prop::collection::vec(any::<u8>(), 0..8)).prop_map(|(relays, protected, muts)| Case::KeyPackage { relays, protected, muts }),
                 2 => ("[ -~]{0,30}", prop::collection::vec(0u8..10, 0..5)).prop_map(|(name, muts)| Case::Welcome { name, muts }),
-                2 => (0u8..5, prop_oneof![3 => "[a-zA-Z0-9 _.\\-]{1,40}", 1 => "\\PC{1,30}"], 0u16..3000, prop::collection::vec(0u8..11, 0..5)).prop_map(|(mime, filename, size, muts)| Case::Imeta { mime, filename, size, muts }),
+                2 => (0u8..20, prop_oneof![3 => "[a-zA-Z0-9 _.\\-]{1,40}", 1 => "\\PC{1,30}"], 0u16..3000, prop::collection::vec(0u8..11, 0..5)).prop_map(|(mime, filename, size, muts)| Case::Imeta { mime, filename, size, muts }),
             ]
         },
         exec,
